@@ -55,6 +55,9 @@ Qed.
 Lemma m_slice_z s a b : 0 <= a -> m_slice s a (Z.of_nat b) = to_M (sl s (Z.to_nat a) b).
 Proof. intros H. rewrite <- (Z2Nat.id a) at 1 by exact H. apply m_slice_nat. Qed.
 
+Lemma m_slice_0 s b : m_slice s 0 (Z.of_nat b) = to_M (sl s 0 b).
+Proof. exact (m_slice_z s 0 b (Z.le_refl 0)). Qed.
+
 Lemma m_slice_tail s i : (i <= length s)%nat -> m_slice s (Z.of_nat i) (GoSem.zlen s) = Ret (skipn i s).
 Proof.
   intros H. rewrite zlen_eq, m_slice_nat. unfold sl.
@@ -195,8 +198,8 @@ Proof.
       + zbools. rewrite m_slice_z by lia. destruct (sl s (Z.to_nat bg) i); reflexivity.
       + rewrite <- (scan_step s i (fun j => Ret (Next (bg, ct + 1, j)))) by exact Hi. reflexivity. }
   assert (HK : forall bg ct i, K (Datatypes.inl (bg, ct, i)) = to_M (if bg <? 0 then Strs.Ret [] else sl s (Z.to_nat bg) (length s))).
-  { intros bg ct i. unfold K. destruct (bg <? 0) eqn:E; [reflexivity|]. zbools. rewrite zlen_eq, m_slice_z by lia.
-    destruct (sl s (Z.to_nat bg) (length s)); reflexivity. }
+  { intros bg ct i. unfold K. destruct (bg <? 0) eqn:E; zbools; decide_cmp; cbv beta iota; [reflexivity|].
+    rewrite zlen_eq, m_slice_z by lia. destruct (sl s (Z.to_nat bg) (length s)); reflexivity. }
   assert (HR : forall v, K (Datatypes.inr v) = Ret v) by reflexivity.
   clearbody C B P K.
   change (while fuel C B P (-1, 0, 0)) with (while fuel C B P (-1, 0, Z.of_nat 0)).
@@ -237,12 +240,11 @@ Proof.
     B (Z.of_nat i, d) =
     let d' := d + disp (fst (decode (skipn i s))) in
     if limit <? d' then to_ret (sl s 0 i) else Ret (Next (Z.of_nat i, d'))).
-  { intros i d Hi. unfold B. rewrite str_rune_at_nat. cbn [fst]. cbv zeta. unfold disp.
-    destruct (fst (decode (skipn i s)) <? 128).
-    - destruct (limit <? d + 1); [|reflexivity]. change 0 with (Z.of_nat 0). rewrite m_slice_nat.
-      destruct (sl s 0 i); reflexivity.
-    - destruct (limit <? d + 2); [|reflexivity]. change 0 with (Z.of_nat 0). rewrite m_slice_nat.
-      destruct (sl s 0 i); reflexivity. }
+  { (* the model's test is split first, the code's comparisons are then decided by lia: polarity / branch order are free *)
+    intros i d Hi. unfold B. rewrite str_rune_at_nat. cbn [fst]. cbv zeta. unfold disp.
+    destruct (fst (decode (skipn i s)) <? 128) eqn:Ev; zbools; decide_cmp; cbv beta iota;
+    (match goal with |- context [limit <? ?x] => destruct (limit <? x) eqn:El end; zbools; decide_cmp; cbv beta iota; [|reflexivity]);
+    rewrite m_slice_0; destruct (sl s 0 i); reflexivity. }
   assert (HP : forall i d, P (Z.of_nat i, d) = Ret (Z.of_nat (i + snd (decode (skipn i s))), d)).
   { intros i d. unfold P. rewrite str_rune_at_nat. cbn [snd]. do 2 f_equal. lia. }
   assert (HK : forall i d, K (Datatypes.inl (i, d)) = Ret s) by reflexivity.
@@ -303,9 +305,6 @@ Proof.
   destruct (maxint <? GoSem.zlen m * c); [reflexivity|]. destruct m; [reflexivity|].
   destruct (alloc_limit <? GoSem.zlen (z :: m) * c); reflexivity.
 Qed.
-
-Lemma m_slice_0 s b : m_slice s 0 (Z.of_nat b) = to_M (sl s 0 b).
-Proof. exact (m_slice_z s 0 b (Z.le_refl 0)). Qed.
 
 (* the tail of Mask: from `if ml == l` on, for the mask m that is spliced in *)
 Definition mask_cut (str m : list Z) (si ei : nat) : Strs.res :=
